@@ -121,6 +121,21 @@ func ZZ_C19_bytes(a []int) {
 		p := &ConnAck{}
 		_ = p.UnmarshalBinary([]byte{x, 0, 0})
 		zzRenderAll(p)
+	case 5: // values outside MQTT's ranges that the setters accept
+		p := NewSubscribe()
+		p.SetSubscriptionID(int(zzU64("sid")))
+		p.AddFilters(NewTopicFilter("a", Opt(x)))
+		zzRenderAll(p)
+		var w zzSink
+		p.WriteTo(&w)
+	case 6:
+		p := NewPublish()
+		p.SetQoS(x)
+		p.AddSubscriptionID(zzU32("sub"))
+		p.SetTopicAlias(zzU16("alias"))
+		zzRenderAll(p)
+		var w zzSink
+		p.WriteTo(&w)
 	case 4: // subscription options
 		tf := NewTopicFilter("a/b", Opt(x))
 		zzEmitS("tf", tf.String())
